@@ -53,6 +53,25 @@ def _const_strings(ix, fi):
     return out
 
 
+def find_arc_writers(ix):
+    """(function, format call, (large-arc field, sweep field)) for every function of svg_io that formats a template holding an `A` command"""
+    mod = ix.modules.get("trimesh.path.exchange.svg_io")
+    cands = []
+    if mod is None:
+        return cands
+    for f in ix.all_functions:
+        if f.module is not mod:
+            continue
+        strings = _const_strings(ix, f)
+        for c in ast.walk(f.node):
+            if isinstance(c, ast.Call) and isinstance(c.func, ast.Attribute) and c.func.attr == "format" and isinstance(c.func.value, ast.Name) \
+                    and c.func.value.id in strings and c.keywords and ix_owner(f, c):
+                flds = _flag_fields(strings[c.func.value.id])
+                if flds and all(any(k.arg == n for k in c.keywords) for n in flds):
+                    cands.append((f, c, flds))
+    return cands
+
+
 def sweep_rule(run, ix, rule, prop):
     import numpy as np
     import sympy as sp
@@ -65,18 +84,7 @@ def sweep_rule(run, ix, rule, prop):
         run.instance(rule, "trimesh/path/exchange/svg_io.py", "module not found - NOT decided", True, nontrivial=False)
         run.assume("svg_io: module not found, sweep flag not decided")
         return
-    # the writer: a function of svg_io that formats a template with an `A` command
-    cands = []
-    for f in ix.all_functions:
-        if f.module is not mod:
-            continue
-        strings = _const_strings(ix, f)
-        for c in ast.walk(f.node):
-            if isinstance(c, ast.Call) and isinstance(c.func, ast.Attribute) and c.func.attr == "format" and isinstance(c.func.value, ast.Name) \
-                    and c.func.value.id in strings and c.keywords and ix_owner(f, c):
-                flds = _flag_fields(strings[c.func.value.id])
-                if flds and all(any(k.arg == n for k in c.keywords) for n in flds):
-                    cands.append((f, c, flds))
+    cands = find_arc_writers(ix)
     if len(cands) != 1:
         run.instance(rule, mod.rel, f"{len(cands)} functions format an SVG `A` command with keyword flags - NOT decided", True, nontrivial=False)
         run.assume("svg_io: arc writer not in a recognised form (one `template.format(..., large=, sweep=)` call)")
